@@ -76,6 +76,10 @@ def document_sets(r, n):
                 xb = [b, 2 ** 64 + 1, -(2 ** 63) - 1, 1e-300, "cafe \U0001F600"]
                 if t == "pickle":
                     xa, xb = xa + [b"abc\x00\xff", {"d": b"x\ny"}], xb + [b"abd\x00", {"d": b"x\nz"}]      # bytes values
+                    # sets (a plain multiset node: only pickles of protocol >= 4 and Python objects produce one), empty and not,
+                    # and a mapping REPLACED by a set / a set by a mapping (F31)
+                    xa = xa + [{1, 2, 3}, frozenset(["x"]), set(), {"tags": {1, 2}, "m": {"k": 1, "j": [1]}, "s": {3}}]
+                    xb = xb + [{1, 2, 4}, frozenset(["x", "y"]), set(), {"tags": {2}, "m": {1, 2}, "s": {"k": 3}, "n": {5}}]
                 s[t] = (_cli.serialise(t, xa, "A"), _cli.serialise(t, xb, "B"))
             else:
                 s[t] = (_cli.serialise(t, a0, "A"), _cli.serialise(t, b0, "B"))
